@@ -84,6 +84,26 @@ impl PositionInfo {
     pub fn current_position_hash(&self) -> u64 {
         self.current_position_hash
     }
+
+    /// Depth of the repetition stack and a fingerprint of the occurrence map
+    /// (order-independent; entries with count 0 are ignored).
+    #[cfg(chess_verif)]
+    pub fn verif_repetition_state(&self) -> (usize, u64, usize) {
+        use std::hash::{Hash, Hasher};
+        let mut fingerprint = 0u64;
+        let mut live = 0usize;
+        for (key, count) in self.position_count.iter() {
+            if *count as u64 == 0 {
+                continue;
+            }
+            live += 1;
+            let mut hasher = rustc_hash::FxHasher::default();
+            key.hash(&mut hasher);
+            count.hash(&mut hasher);
+            fingerprint = fingerprint.wrapping_add(hasher.finish());
+        }
+        (self.max_seen_position_count_stack.len(), fingerprint, live)
+    }
 }
 
 #[cfg(test)]
